@@ -1,153 +1,7 @@
 /-
-  Invariant and helper lemmas for the monotonic buffer resource model (property C06).
-  Layers: arithmetic of `alignUp`; component predicates (`PagesOK`, `OvOK`, `DtOK`, `Geo`);
-  the invariant `Inv`; one lemma per allocation path; allocate / register / release / move.
+  Invariant + helper lemmas for the monotonic buffer resource model (property C06).
+  Geo.lean   segments, disjointness, the abstract regions/items/free-range configuration
+  Inv.lean   component predicates, the invariant, the fast path
+  (this file) aggregates them
 -/
-import Babylon.Arena.Model
-import Babylon.Arena.Geo
-import Babylon.Core.Reach
-
-namespace Babylon.Arena
-open Babylon.Gen.Arena Babylon.Core
-
-/-! ### constants -/
-theorem c_pageArrayCap : pageArrayCap = 15 := rfl
-theorem c_destroyArrayCap : destroyArrayCap = 15 := rfl
-theorem c_sizeofPageArray : sizeofPageArray = 128 := rfl
-theorem c_alignofPageArray : alignofPageArray = 8 := rfl
-theorem c_offsetPages : offsetPages = 8 := rfl
-theorem c_ptrSize : ptrSize = 8 := rfl
-theorem c_sizeofOvArray : sizeofOvArray = 368 := rfl
-theorem c_alignofOvArray : alignofOvArray = 8 := rfl
-theorem c_offsetOvPages : offsetOvPages = 8 := rfl
-theorem c_sizeofOvPage : sizeofOvPage = 24 := rfl
-theorem c_sizeofDtArray : sizeofDtArray = 248 := rfl
-theorem c_alignofDtArray : alignofDtArray = 8 := rfl
-theorem c_offsetTasks : offsetTasks = 8 := rfl
-theorem c_sizeofDestroyTask : sizeofDestroyTask = 16 := rfl
-theorem c_moveSwapsUpstream : moveSwapsUpstream = true := rfl
-
-/-- rewrite every generated constant to its numeral -/
-macro "consts" : tactic =>
-  `(tactic| simp only [c_pageArrayCap, c_destroyArrayCap, c_sizeofPageArray, c_alignofPageArray, c_offsetPages,
-      c_ptrSize, c_sizeofOvArray, c_alignofOvArray, c_offsetOvPages, c_sizeofOvPage, c_sizeofDtArray,
-      c_alignofDtArray, c_offsetTasks, c_sizeofDestroyTask] at *)
-
-/-! ### `alignUp` -/
-
-theorem alignUp_spec (x : Nat) {a : Nat} (ha : 0 < a) :
-    x ≤ alignUp x a ∧ alignUp x a < x + a ∧ a ∣ alignUp x a := by
-  unfold alignUp
-  have h1 := Nat.div_add_mod (x + a - 1) a
-  have h2 := Nat.mod_lt (x + a - 1) ha
-  have h3 : (x + a - 1) / a * a = a * ((x + a - 1) / a) := Nat.mul_comm _ _
-  refine ⟨by omega, by omega, ?_⟩
-  exact ⟨(x + a - 1) / a, h3⟩
-
-theorem le_alignUp (x : Nat) {a : Nat} (ha : 0 < a) : x ≤ alignUp x a := (alignUp_spec x ha).1
-theorem alignUp_lt (x : Nat) {a : Nat} (ha : 0 < a) : alignUp x a < x + a := (alignUp_spec x ha).2.1
-theorem alignUp_dvd (x : Nat) {a : Nat} (ha : 0 < a) : a ∣ alignUp x a := (alignUp_spec x ha).2.2
-
-theorem alignUp_zero {a : Nat} (ha : 0 < a) : alignUp 0 a = 0 := by
-  have := alignUp_spec 0 ha
-  rcases this with ⟨_, h2, ⟨k, hk⟩⟩
-  rcases k with _ | k
-  · simpa using hk
-  · rw [hk, Nat.mul_succ] at h2; omega
-
-theorem alignUp_8 (x : Nat) : alignUp x 8 = (x + 7) / 8 * 8 := rfl
-
-theorem pow2_pos {a : Nat} (h : ∃ k, a = 2 ^ k) : 0 < a := by
-  rcases h with ⟨k, rfl⟩; exact Nat.pow_pos (by decide)
-
-theorem pow2_dvd_of_le {a b : Nat} (ha : ∃ k, a = 2 ^ k) (hb : ∃ k, b = 2 ^ k) (h : a ≤ b) : a ∣ b := by
-  rcases ha with ⟨i, rfl⟩; rcases hb with ⟨j, rfl⟩
-  exact Nat.pow_dvd_pow 2 ((Nat.pow_le_pow_iff_right (by decide)).mp h)
-
-theorem pow2_max8 {a : Nat} (ha : ∃ k, a = 2 ^ k) : a ∣ max a 8 ∧ 8 ∣ max a 8 ∧ 0 < max a 8 := by
-  rcases Nat.le_total a 8 with h | h
-  · rw [Nat.max_eq_right h]
-    exact ⟨pow2_dvd_of_le ha ⟨3, rfl⟩ h, Nat.dvd_refl _, by decide⟩
-  · rw [Nat.max_eq_left h]
-    exact ⟨Nat.dvd_refl _, pow2_dvd_of_le ⟨3, rfl⟩ ha h, pow2_pos ha⟩
-
-/-! ### segments of the state -/
-
-def Block.seg (b : Block) : Seg := ⟨b.addr, b.bytes⟩
-def PageArr.seg (a : PageArr) : Seg := ⟨a.addr, sizeofPageArray⟩
-def OvArr.seg (a : OvArr) : Seg := ⟨a.addr, sizeofOvArray⟩
-
-def pageRegs (ps : Nat) (held : List (Nat × Nat)) : List Seg := held.map (fun p => ⟨p.2, ps⟩)
-def ovRegs (held : List (Nat × OvEntry)) : List Seg := held.map (fun e => ⟨e.2.page, e.2.bytes⟩)
-
-/-- memory the resource holds: pages and upstream blocks -/
-def regions (s : Arena) : List Seg := pageRegs s.pageSize s.pagesHeld ++ ovRegs s.ovHeld
-
-/-- everything placed in that memory: blocks handed out (including destroy-task arrays), page
-arrays, oversize arrays -/
-def items (s : Arena) : List Seg :=
-  s.blocks.map Block.seg ++ (s.pageArrs.map PageArr.seg ++ s.ovArrs.map OvArr.seg)
-
-def freeSeg (s : Arena) : Seg := ⟨s.freeBegin, s.freeEnd - s.freeBegin⟩
-
-/-! ### component predicates -/
-
-/-- every page array lives in a page held by itself or by an older array of the chain -/
-def ArrsHome (ps : Nat) : List PageArr → Prop
-  | [] => True
-  | a :: rest => (∃ p ∈ a.pages ++ rest.flatMap (·.pages), Inside a.seg ⟨p, ps⟩) ∧ ArrsHome ps rest
-
-structure PagesOK (pa ps : Nat) (arrs : List PageArr) (held : List (Nat × Nat)) (fb fe : Nat) : Prop where
-  heldEq : held = (arrs.flatMap (·.pages)).map (fun p => (pa, p))
-  aligned : ∀ p ∈ arrs.flatMap (·.pages), ps ∣ p
-  shape : ∀ a ∈ arrs, 0 < a.pages.length ∧ a.pages.length ≤ pageArrayCap ∧ 8 ∣ a.addr
-  tailFull : ∀ a ∈ arrs.tail, a.pages.length = pageArrayCap
-  home : ArrsHome ps arrs
-  free : (arrs = [] ∧ fb = 0 ∧ fe = 0) ∨
-         (∃ a rest p l, arrs = a :: rest ∧ a.pages = p :: l ∧ fe = p + ps ∧ p ≤ fb)
-
-/-- an oversize array sits at the end of the upstream block recorded in its own last entry -/
-def OvArrOK (a : OvArr) : Prop :=
-  0 < a.ents.length ∧ a.ents.length ≤ pageArrayCap ∧ 8 ∣ a.addr ∧
-  ∃ last, a.ents.getLast? = some last ∧ last.page ≤ a.addr ∧ a.addr + sizeofOvArray = last.page + last.bytes
-
-structure OvOK (up : Nat) (arrs : List OvArr) (held : List (Nat × OvEntry)) : Prop where
-  heldEq : held = (arrs.flatMap (·.ents)).map (fun e => (up, e))
-  aligned : ∀ e ∈ arrs.flatMap (·.ents), e.align ∣ e.page
-  shape : ∀ a ∈ arrs, OvArrOK a
-  tailFull : ∀ a ∈ arrs.tail, a.ents.length = pageArrayCap
-
-structure DtOK (arrs : List DtArr) (dtors : List Nat) (blocks : List Block) : Prop where
-  dtorsEq : dtors = arrs.flatMap (·.tasks)
-  shape : ∀ a ∈ arrs, 0 < a.tasks.length ∧ a.tasks.length ≤ destroyArrayCap ∧
-            (⟨a.addr, sizeofDtArray, .dtArray⟩ : Block) ∈ blocks
-  tailFull : ∀ a ∈ arrs.tail, a.tasks.length = destroyArrayCap
-
-/-- The invariant of one resource. -/
-structure Inv (s : Arena) : Prop where
-  psPow2 : ∃ k, s.pageSize = 2 ^ k
-  psGe : sizeofPageArray ≤ s.pageSize
-  pg : PagesOK s.pa s.pageSize s.pageArrs s.pagesHeld s.freeBegin s.freeEnd
-  ov : OvOK s.up s.ovArrs s.ovHeld
-  dt : DtOK s.dtArrs s.dtors s.blocks
-  geo : Geo (regions s) (items s) (freeSeg s)
-  acctAlloc : s.spaceAllocated = s.pageSize * s.pagesHeld.length + (s.ovHeld.map (·.2.bytes)).sum
-  acctUsed : s.spaceUsed = (s.blocks.map (·.bytes)).sum
-
-theorem Inv.ps8 {s : Arena} (h : Inv s) : 8 ∣ s.pageSize :=
-  pow2_dvd_of_le ⟨3, rfl⟩ h.psPow2 (Nat.le_trans (by decide) h.psGe)
-
-theorem Inv.psPos {s : Arena} (h : Inv s) : 0 < s.pageSize := pow2_pos h.psPow2
-
-theorem inv_fresh (pa ps up : Nat) (hp : ∃ k, ps = 2 ^ k) (hg : sizeofPageArray ≤ ps) :
-    Inv (Arena.fresh pa ps up) where
-  psPow2 := hp
-  psGe := hg
-  pg := ⟨rfl, by simp [Arena.fresh], by simp [Arena.fresh], by simp [Arena.fresh], trivial, Or.inl ⟨rfl, rfl, rfl⟩⟩
-  ov := ⟨rfl, by simp [Arena.fresh], by simp [Arena.fresh], by simp [Arena.fresh]⟩
-  dt := ⟨rfl, by simp [Arena.fresh], by simp [Arena.fresh]⟩
-  geo := Geo.empty _ rfl
-  acctAlloc := by simp [Arena.fresh]
-  acctUsed := by simp [Arena.fresh]
-
-end Babylon.Arena
+import Babylon.Arena.Inv
